@@ -86,6 +86,11 @@ type Step struct {
 	// file of the program cannot be opened or stat'ed (fs.ErrPermission, i.e. NOT not-exist);
 	// a later step without Deny finds the files readable again.
 	Deny string `json:"deny,omitempty"`
+	// Extra: files that EXIST only while steps name them - "base" (a default layout
+	// layouts/base.vuego for a program that has none), "local" (a layout file next to the page
+	// for a page whose front-matter names a layout), "base+local". A step that does not name
+	// an overlay finds its files deleted again.
+	Extra string `json:"extra,omitempty"`
 }
 
 // Case is a history. Mode "history" (default), "probe" (Steps[0] rendered K times on one
@@ -131,8 +136,33 @@ type engine struct {
 	vue  *vuego.Vue
 }
 
+// rootOf creates the root template. cat.Program.Engine knows the option "components"; the
+// local option "less" (vuego.WithLessProcessor) is added here.
+func rootOf(opts cat.Program, fsys fs.FS) vuego.Template {
+	less := false
+	for _, o := range opts.Opts {
+		if o == "less" {
+			less = true
+		}
+	}
+	if !less {
+		return opts.Engine(fsys)
+	}
+	mounted := fsys
+	if m, ok := fsys.(*memfs.FS); ok {
+		mounted = opts.Mount(m)
+	}
+	lo := []vuego.LoadOption{vuego.WithFuncs(cat.Funcs())}
+	for _, o := range opts.Opts {
+		if o == "components" {
+			lo = append(lo, vuego.WithComponents())
+		}
+	}
+	return vuego.NewFS(mounted, append(lo, vuego.WithLessProcessor())...)
+}
+
 func newEngine(opts cat.Program, fsys fs.FS) *engine {
-	return &engine{root: opts.Engine(fsys), vue: opts.NewVue(fsys)}
+	return &engine{root: rootOf(opts, fsys), vue: opts.NewVue(fsys)}
 }
 
 func usesVue(entry string) bool { return entry == "vue" || entry == "frag" || entry == eNodes }
@@ -145,7 +175,7 @@ func newEngineFor(opts cat.Program, fsys fs.FS, entries []string) *engine {
 			e.vue = opts.NewVue(fsys)
 		}
 		if !usesVue(en) && e.root == nil {
-			e.root = opts.Engine(fsys)
+			e.root = rootOf(opts, fsys)
 		}
 	}
 	return e
@@ -165,6 +195,7 @@ type seat struct {
 	base    cat.Program
 	rev, mt int
 	deny    string
+	extra   string
 }
 
 func parseBody(body string) []*html.Node {
@@ -260,6 +291,7 @@ type refKey struct {
 	v           int
 	rev         int
 	deny        string
+	extra       string
 }
 
 var (
@@ -271,7 +303,7 @@ var (
 // whole table is filled by TestProp before the first history; a replayed case fills what it
 // needs before its history starts).
 func reference(p cat.Program, entry string, v int) (result, error) {
-	k := refKey{p.Name, entry, v, 0, ""}
+	k := refKey{p.Name, entry, v, 0, "", ""}
 	refMu.Lock()
 	defer refMu.Unlock()
 	if r, ok := refTab[k]; ok {
@@ -615,13 +647,13 @@ func judge(c Case, p cat.Program, where string, got, ref result, refName string,
 }
 
 func refFor(c Case, defRefs map[refKey]result, p cat.Program, entry string, v int) (result, error) {
-	return refForRev(c, defRefs, p, entry, v, 0, "")
+	return refForRev(c, defRefs, p, entry, v, 0, "", "")
 }
 
 // refForRev: p is already the revised program when rev != 0 (revisions are never in the table).
-func refForRev(c Case, defRefs map[refKey]result, p cat.Program, entry string, v, rev int, deny string) (result, error) {
-	if _, inline := lookupDef(c, p.Name); inline || rev != 0 || deny != "" {
-		k := refKey{p.Name, entry, v, rev, deny}
+func refForRev(c Case, defRefs map[refKey]result, p cat.Program, entry string, v, rev int, deny, extra string) (result, error) {
+	if _, inline := lookupDef(c, p.Name); inline || rev != 0 || deny != "" || extra != "" {
+		k := refKey{p.Name, entry, v, rev, deny, extra}
 		if r, ok := defRefs[k]; ok {
 			return r, nil
 		}
@@ -674,8 +706,11 @@ func check(c Case) error {
 		if err := editAllowed(c, i, mtimes); err != nil {
 			return err
 		}
-		p = revise(p, st.Rev)
-		ref, err := refForRev(c, defRefs, p, st.Entry, st.Var, st.Rev, st.Deny)
+		p, err := withExtra(revise(p, st.Rev), st.Extra)
+		if err != nil {
+			return fmt.Errorf("step %d: %w", i+1, err)
+		}
+		ref, err := refForRev(c, defRefs, p, st.Entry, st.Var, st.Rev, st.Deny, st.Extra)
 		if err != nil {
 			return fmt.Errorf("step %d (%s/%s rev %d) alone on a fresh engine: %w", i, st.Prog, st.Entry, st.Rev, err)
 		}
@@ -733,6 +768,11 @@ func check(c Case) error {
 		if err != nil {
 			return fmt.Errorf("step %d: %w", i+1, err)
 		}
+		if extra, err := w.seats[st.Prog].setExtra(st.Extra); err != nil {
+			return fmt.Errorf("step %d: %w", i+1, err)
+		} else if extra != "" {
+			edited = strings.TrimPrefix(edited+"; "+extra, "; ")
+		}
 		denied, err := w.seats[st.Prog].setDeny(st.Deny)
 		if err != nil {
 			return fmt.Errorf("step %d: %w", i+1, err)
@@ -763,7 +803,7 @@ func check(c Case) error {
 		if !c.Recheck {
 			break
 		}
-		k := refKey{st.Prog, st.Entry, st.Var, st.Rev, st.Deny}
+		k := refKey{st.Prog, st.Entry, st.Var, st.Rev, st.Deny, st.Extra}
 		if seen[k] {
 			continue
 		}
@@ -1232,6 +1272,20 @@ func TestProp(t *testing.T) {
 		each("edits-core", Case{Steps: []Step{st(0, 0, 1), st(1, 2, 1), st(2, 1, 1), st(0, -1, 1), st(1, 3, 2)}})
 		// the page (then every template file) becomes unreadable with a permission error after
 		// it was rendered, and readable again
+		// files are CREATED and DELETED between renders: a default layout appears after a render
+		// that had none, disappears, reappears; the same for a layout next to the page
+		ex := func(extra string, k int) Step { return Step{Prog: cb.p.Name, Entry: cb.entry, Extra: extra, K: k} }
+		tplEntry := cb.entry == "load" || cb.entry == "file" || cb.entry == eAssign // the entries that apply layouts
+		if tplEntry && overlayOK(cb.p, "base") {
+			each("edits-core", Case{Steps: []Step{ex("", 1), ex("base", 2), ex("", 1), ex("base", 1), ex("", 1)}})
+		}
+		if tplEntry && overlayOK(cb.p, "local") {
+			each("edits-core", Case{Steps: []Step{ex("", 1), ex("local", 2), ex("", 1), ex("local", 1)}})
+			each("edits-core", Case{Steps: []Step{ex("local", 1), ex("", 2), ex("local", 1)}})
+		}
+		if tplEntry && overlayOK(cb.p, "base+local") {
+			each("edits-core", Case{Steps: []Step{ex("base", 1), ex("base+local", 1), ex("local", 1), ex("", 1), ex("base+local", 1)}})
+		}
 		dn := func(deny string, k int) Step { return Step{Prog: cb.p.Name, Entry: cb.entry, Deny: deny, K: k} }
 		each("edits-core", Case{Steps: []Step{dn("", 2), dn("page", 2), dn("", 1), dn("all", 1), dn("", 1)}})
 	}
